@@ -304,7 +304,7 @@ _INT_KINDS = ('int64', 'int32')
 @st.composite
 def _point(draw, N, smooth=False):
     """(x, kind): integers stored as int64 / int32 / float64, reals stored as float64 / float32"""
-    kind = draw(st.sampled_from(['int64', 'int64', 'int32', 'intfloat', 'real', 'real', 'real', 'float32']))
+    kind = draw(st.sampled_from(['real', 'real', 'real', 'int64', 'int64', 'int32', 'intfloat', 'float32']))
     if kind in ('real', 'float32'):
         if smooth:
             el = st.one_of(st.integers(-12, 12).map(lambda k: k / 8.0), gen.nice_floats(-1.5, 1.5))
@@ -606,7 +606,11 @@ def prop_smooth_tensor(case, stats):
     # magnitude of the terms: the interpolation combines d-th Taylor coefficients along rays with entries up to d
     scale = max(1.0, float(np.max(np.abs(ref)))) * float(d) ** d
     _INFO.clear()
-    _INFO[id(case)] = {'nt': any(sum(1 for a in alpha if a) >= 2 and np.any(ref[k] != 0) for k, alpha in enumerate(rows))}
+    if d == 1:
+        nt = int(np.sum(np.any(ref.reshape(len(rows), -1) != 0, axis=1))) >= 2       # the output depends on two variables
+    else:
+        nt = any(sum(1 for a in alpha if a) >= 2 and np.any(ref[k] != 0) for k, alpha in enumerate(rows))
+    _INFO[id(case)] = {'nt': nt}
     _compare(T, ref, scale, 1e-9, stats, 'extract_tensor(N, f(init_tensor(%d,x)), as_full_matrix=False) vs mpmath' % d)
 
 
